@@ -311,6 +311,56 @@ def rule_D13(body):
     return new, [("D13", re.sub(r"\s+", " ", body[mm.start():open_brace + 1]), f"for {var} in {recv}.iter() {{ if {var}.{method}() {{ .. }} }}")]
 
 
+def _iter_adapter(body, method, rule, build):
+    """shared scanner for `RECV.iter().<method>(|x| BODY)` with RECV a plain path; `build(recv, var, cbody)` gives the loop text"""
+    applied = []
+    while True:
+        m = mask(body)
+        mm = re.search(r"([A-Za-z_][A-Za-z0-9_]*(?:\s*\.\s*[A-Za-z_0-9]+)*)\s*\.iter\(\)\s*\." + method + r"\(\s*\|\s*([A-Za-z_][A-Za-z0-9_]*)\s*\|\s*", m)
+        if not mm:
+            break
+        call_open = m.index("(", m.index("." + method, mm.start()))
+        call_close = match_close(m, call_open) - 1
+        cbody = body[mm.end():call_close].strip()
+        if cbody.endswith(","):
+            cbody = cbody[:-1].rstrip()
+        if re.search(r"\breturn\b|\bbreak\b|\bcontinue\b|\?", mask(cbody)):
+            raise LostAnchor(f"rule {rule}: closure contains return/break/continue/?")
+        recv, var = mm.group(1), mm.group(2)
+        new = build(recv, var, cbody, m, len(applied) + 1)
+        applied.append((rule, re.sub(r"\s+", " ", body[mm.start():call_close + 1])[:160], re.sub(r"\s+", " ", new)[:200]))
+        body = body[:mm.start()] + new + body[call_close + 1:]
+    if not applied:
+        raise LostAnchor(f"rule {rule}: no `.iter().{method}(|x| ..)` found")
+    return body, applied
+
+
+def rule_D14(body):
+    """D14: `RECV.iter().find_map(|x| BODY)` is written as
+    `{ let mut found_first_k = None; for x in RECV.iter() { if found_first_k.is_none() { found_first_k = BODY; } } found_first_k }` — the first
+    `Some` the closure yields, in iteration order.  Equal to Iterator::find_map for a closure without side effects (std stops
+    calling it after the first hit; here the remaining calls are skipped by the `is_none` test).  RECV a plain path, BODY
+    without return/break/continue/?; every occurrence, at least one."""
+    def build(recv, var, cbody, m, k):
+        name = f"found_first_{k}"
+        if re.search(r"\b" + name + r"\b", m):
+            raise LostAnchor(f"rule D14: the name {name} is already in use")
+        return f"{{ let mut {name} = None; for {var} in {recv}.iter() {{ if {name}.is_none() {{ {name} = {cbody}; }} }} {name} }}"
+    return _iter_adapter(body, "find_map", "D14", build)
+
+
+def rule_D15(body):
+    """D15: `RECV.iter().any(|x| COND)` is written as
+    `{ let mut any_hit_k = false; for x in RECV.iter() { if !any_hit_k { any_hit_k = COND; } } any_hit_k }` (Iterator::any for a predicate
+    without side effects).  RECV a plain path, COND without return/break/continue/?; every occurrence, at least one."""
+    def build(recv, var, cbody, m, k):
+        name = f"any_hit_{k}"
+        if re.search(r"\b" + name + r"\b", m):
+            raise LostAnchor(f"rule D15: the name {name} is already in use")
+        return f"{{ let mut {name} = false; for {var} in {recv}.iter() {{ if !{name} {{ {name} = {cbody}; }} }} {name} }}"
+    return _iter_adapter(body, "any", "D15", build)
+
+
 def rule_D5b(body):
     """D5 (closure body): `.map(|x| EXPR)` with EXPR not a block is written `.map(|x| { EXPR })`, so that a ghost
     signature can be attached to the closure; same value.  Every occurrence, at least one."""
@@ -378,7 +428,7 @@ def rule_D4t(body):
     return pat.sub("range_from_element(", body), [("D4", "<Option<&SubtypeElements> as TryInto<PerVisibleRangeConstraints>>::try_into(", "range_from_element(")] * n
 
 
-RULES = {"D2": rule_D2, "D5": rule_D5, "D5c": rule_D5c, "D5m": rule_D5m, "D9": rule_D9, "D4t": rule_D4t, "D10": rule_D10, "D5b": rule_D5b, "D12": rule_D12, "D13": rule_D13}
+RULES = {"D2": rule_D2, "D5": rule_D5, "D5c": rule_D5c, "D5m": rule_D5m, "D9": rule_D9, "D4t": rule_D4t, "D10": rule_D10, "D5b": rule_D5b, "D12": rule_D12, "D13": rule_D13, "D14": rule_D14, "D15": rule_D15}
 
 
 class FnUnit:
